@@ -310,3 +310,67 @@ def run_c(run, P):
                               'indistinguishable from real data' % (short(l), inner.get('mn') or inner.get('en'), v, w, 'signed' if l.get('s') else 'unsigned', v & ((1 << w) - 1)), [])
     run.instance('R-WIDTH', 'named-constant stores into record fields: %d' % n, n=1 if n else 0)
     run.require(n >= 50 or run.fixture_mode, 'R-WIDTH(c): only %d stores of named constants into record fields found' % n)
+
+
+def run_d(run, P, units=('coap_pdu.c', 'coap_option.c')):
+    """R-WIDTH (d): implicit narrowing at a call.  In the decoding units, an argument that the compiler converts to a NARROWER integer type
+    for the parameter (implicit integral cast to 8 or 16 bits from a wider variable or field; arithmetic is declined) is only handed over when the
+    interval analysis proves, on that path, that the value fits the parameter.  The per-option length limits live in functions that take
+    the length as uint16_t; an option length is up to 65535 + 269, so `coap_pdu_parse_opt_base(pdu, len)` with a uint32_t len judges an
+    option of 65536 + x bytes as one of x bytes."""
+    run.rule('R-WIDTH')
+    n = 0
+    for f in sorted(P.lib_funcs(), key=lambda f: f['name']):
+        if units and f['unit'] not in units:
+            continue
+        name = f['name']
+        cands = []
+        for b, ev in P.events(f):
+            for t in walk(ev['e']):
+                if not (isinstance(t, dict) and t.get('k') == 'call' and t.get('fn') and P.has(t['fn'])):
+                    continue
+                for i, a in enumerate(t.get('a') or []):
+                    if isinstance(a, dict) and a.get('k') == 'cast' and not a.get('ex') and a.get('ck') == 'IntegralCast' and a.get('w') in (8, 16):
+                        inner = a.get('e')
+                        iw = strip(inner).get('w') if isinstance(strip(inner), dict) else None
+                        # a plain variable / field only: differences (`number - max_opt`) are bounded by relations between their operands,
+                        # which the interval domain does not carry -- they are declined here
+                        if const_int(inner) is None and iw and iw > a['w'] and ap(strip(inner)):
+                            cands.append((ev, t, i, a))
+        if not cands:
+            continue
+        cand_evs = set(id(c[0]) for c in cands)
+        extra = set()
+        for ev, t, i, a in cands:
+            extra |= aps_of(a['e'])
+
+        def is_rule_event(ev):
+            return id(ev) in cand_evs
+        keys, R = relevance(f, is_rule_event, extra)
+        R = R | extra
+        done = set()
+
+        def on_event(ev, env, ctx):
+            if id(ev) not in cand_evs:
+                return None
+            for cev, t, i, a in cands:
+                if cev is not ev:
+                    continue
+                rng = ivl.eval_raw(a['e'], env)
+                tr = ivl.type_range(a)
+                ok = ivl.fits(rng, tr)
+                k2 = (ev['loc'], t['fn'], i)
+                run.oblige('R-WIDTH', ok, '%s:implicit-narrowing-at-call:%s' % (name, t['fn']))
+                if k2 not in done:
+                    done.add(k2)
+                    run.instance('R-WIDTH', '%s: %s(arg %d: %s -> %s)' % (name, t['fn'], i, short(a['e'])[:40], a.get('t')))
+                if not ok:
+                    run.violation('R-WIDTH', name, ev['loc'], 'implicit-narrowing-at-call:%s:arg%d' % (t['fn'], i),
+                                  '%s is converted to %s (%d bits) for parameter %d of %s() although it can be %s on this path: the callee sees the value modulo 2^%d -- a '
+                                  'limit it enforces is enforced on the wrong number' % (short(a['e'])[:50], a.get('t'), a['w'], i, t['fn'], ivl.fmt(rng), a['w']), ctx.path())
+            return None
+        n += len(cands)
+        ctx = solve(f, Env(), on_event, None, keys, R)
+        run.stats['width_solver_steps'] += ctx.steps
+    # expected count on the repaired tree is zero: the positive example lives in fixtures/C03_width_call.c
+    run.stats['width_implicit_call_narrowings'] = n
